@@ -41,6 +41,8 @@ type Solver struct {
 	WaitTime time.Duration // total time blocked reading solver answers (checks, models, values)
 	IntMode  bool               // render bit-vectors as integers (see intmode.go)
 	ints     map[int]intInfo
+	approx   map[int]bool // terms whose rendering is an over-approximation (directly or through a sub-term)
+	Approx   bool  // some term was rendered as an over-approximation: 'unsat' is still sound, 'sat' needs replay
 	broken   error // a term could not be rendered: every later query is inconclusive
 	stack   []int // ids of the path-condition nodes asserted, one push level each
 }
@@ -73,7 +75,7 @@ func New(kind string, timeoutMs int) (*Solver, error) {
 	if err := cmd.Start(); err != nil {
 		return nil, err
 	}
-	s := &Solver{IntMode: intMode, ints: map[int]intInfo{}, Kind: kind, cmd: cmd, inc: in, in: bufio.NewWriterSize(in, 1<<16), out: bufio.NewReaderSize(out, 1<<16), defined: map[int]bool{}}
+	s := &Solver{IntMode: intMode, ints: map[int]intInfo{}, approx: map[int]bool{}, Kind: kind, cmd: cmd, inc: in, in: bufio.NewWriterSize(in, 1<<16), out: bufio.NewReaderSize(out, 1<<16), defined: map[int]bool{}}
 	if kind == "cvc5" {
 		s.send("(set-logic ALL)")
 	}
@@ -131,6 +133,11 @@ func (s *Solver) define(t *term.Term) {
 		if s.IntMode {
 			if err := s.defineIntTerm(x); err != nil && s.broken == nil {
 				s.broken = err
+			}
+			for _, a := range x.Args {
+				if s.approx[a.ID] {
+					s.approx[x.ID] = true
+				}
 			}
 			s.defined[x.ID] = true
 			st = st[:len(st)-1]
@@ -353,6 +360,9 @@ func (s *Solver) CheckInc(pc []PCItem, extra []*term.Term) (Result, error) {
 
 // Define makes t known to the solver (must happen before the check-sat whose model is read).
 func (s *Solver) Define(t *term.Term) { s.define(t) }
+
+// IsApprox reports whether t (already defined) was rendered as an over-approximation.
+func (s *Solver) IsApprox(t *term.Term) bool { return s.approx[t.ID] }
 
 // ModelIDs reads the values of vars (after a Sat answer, frame stays open) in one round trip;
 // the result maps term IDs to values.
